@@ -76,6 +76,7 @@ def make_block_text(rng, b, layout):
     star = ind + ' *'
     sep = layout.get('ann_sep', ' ')            # what stands between two annotations of one line
     cont = '\t\t' if layout.get('cont_tabs') else '    '      # indentation of a continuation line that carries annotations
+    pc = layout.get('pre_colon', '')            # blanks between the last annotation and the ':' that separates the description
     lines = ['/**']
     ident = b['name'] + (':' if (b['anns'] or layout['colon']) else '')
     if b['anns']:
@@ -94,12 +95,12 @@ def make_block_text(rng, b, layout):
                 lines.append(head + ' ' + render_ann(p['anns'][0]))
                 for a in p['anns'][1:-1]:
                     lines.append('%s%s%s' % (star, cont, render_ann(a)))
-                lines.append('%s%s%s%s' % (star, cont, render_ann(p['anns'][-1]), ':' if p['desc'] else ''))
+                lines.append('%s%s%s%s' % (star, cont, render_ann(p['anns'][-1]), (pc + ':') if p['desc'] else ''))
                 if p['desc']:
                     for l in p['desc']:
                         lines.append('%s    %s' % (star, l))
                 continue
-            head += ' ' + sep.join(render_ann(a) for a in p['anns']) + (':' if (p['desc'] or layout['colon']) else '')
+            head += ' ' + sep.join(render_ann(a) for a in p['anns']) + ((pc + ':') if (p['desc'] or layout['colon']) else '')
         if p['desc']:
             lines.append(head + ' ' + p['desc'][0])
             for l in p['desc'][1:]:
@@ -112,7 +113,7 @@ def make_block_text(rng, b, layout):
         t = tags.pop(0)
         head = '%s @returns:' % star
         if t.get('anns'):
-            head += ' ' + sep.join(render_ann(a) for a in t['anns']) + (':' if t['desc'] else '')
+            head += ' ' + sep.join(render_ann(a) for a in t['anns']) + ((pc + ':') if t['desc'] else '')
         if t['desc']:
             lines.append(head + ' ' + t['desc'][0])
             for l in t['desc'][1:]:
@@ -129,7 +130,7 @@ def make_block_text(rng, b, layout):
         for t in tags:
             head = '%s %s:' % (star, t['name'])
             if t.get('anns'):
-                head += ' ' + sep.join(render_ann(a) for a in t['anns']) + (':' if t['desc'] else '')
+                head += ' ' + sep.join(render_ann(a) for a in t['anns']) + ((pc + ':') if t['desc'] else '')
             if t.get('value'):
                 head += ' ' + t['value'] + (':' if t['desc'] else '')
             if t['desc']:
@@ -374,7 +375,8 @@ def main(tier, seed):
         layouts = [base_layout, dict(base_layout, newline='\r\n'), dict(base_layout, newline='\r'), dict(base_layout, indent='    '),
                    dict(base_layout, indent='\t'), dict(base_layout, wrap_anns=True), dict(base_layout, colon=False, wrap_anns=rng.random() < 0.5),
                    dict(base_layout, returns_as_param=True), dict(base_layout, trailing=True), dict(base_layout, trailing=True, wrap_anns=True),
-                   dict(base_layout, ann_sep=rng.choice(['\t', '  ', ' \t '])), dict(base_layout, wrap_anns=True, cont_tabs=True)]
+                   dict(base_layout, ann_sep=rng.choice(['\t', '  ', ' \t '])), dict(base_layout, wrap_anns=True, cont_tabs=True),
+                   dict(base_layout, pre_colon=rng.choice([' ', '  ', '\t']), wrap_anns=rng.random() < 0.3)]
         first = None
         for lay in layouts:
             if lay.get('returns_as_param') and any(t['name'] == 'Returns' and '' in t['desc'] for t in b['tags']):
